@@ -141,7 +141,7 @@ func (c *Ctx) rulePanicCover() {
 
 func (c *Ctx) ruleMethodExhaustive() {
 	r := c.R
-	r.Rule("C17-METHOD-EXHAUSTIVE", "PathItem.assignOperation has a case for every catalog.HTTPMethod constant that catalog.NewHTTPMethod can return", 1)
+	r.Rule("C17-METHOD-EXHAUSTIVE", "PathItem.assignOperation, run abstractly with its method parameter bound to each catalog.HTTPMethod constant that catalog.NewHTTPMethod can return, assigns exactly one slot of the path item (a different one per method) and does not reach its panic", 1)
 	nm := c.fn("catalog", "NewHTTPMethod")
 	ao := c.fn("catalog/ser/openapi", "PathItem.assignOperation")
 	if nm == nil || ao == nil {
@@ -157,28 +157,55 @@ func (c *Ctx) ruleMethodExhaustive() {
 		}
 		return true
 	})
-	handled := map[string]bool{}
-	ast.Inspect(ao.Decl.Body, func(n ast.Node) bool {
-		if cc, ok := n.(*ast.CaseClause); ok {
-			for _, e := range cc.List {
-				if k := constObj(ao.Pkg, e); k != nil {
-					handled[k.Name()] = true
-				}
+	// run assignOperation abstractly for each method NewHTTPMethod can return (whatever form the dispatch has): it must
+	// not reach a panic and must assign exactly one slot, a different one for each method
+	var mparam types.Object
+	if ps := ao.Decl.Type.Params.List; len(ps) > 0 && len(ps[0].Names) > 0 {
+		mparam = ao.Pkg.TypesInfo.Defs[ps[0].Names[0]]
+	}
+	var names []string
+	for k := range produced {
+		names = append(names, k)
+	}
+	sort.Strings(names)
+	slotOf := map[string]string{}
+	var missing []string
+	for _, name := range names {
+		k, _ := nm.Pkg.Types.Scope().Lookup(name).(*types.Const)
+		if k == nil || mparam == nil {
+			missing = append(missing, name+" (not evaluated)")
+			continue
+		}
+		env := &constEnv{c: c, vars: map[types.Object]constant.Value{mparam: k.Val()}}
+		var assigns []string
+		panics := false
+		env.trace = func(kind, what string) {
+			if kind == "panic" {
+				panics = true
+			} else {
+				assigns = append(assigns, what)
 			}
 		}
-		return true
-	})
-	var missing []string
-	for k := range produced {
-		if !handled[k] {
-			missing = append(missing, k)
+		outs := map[string]bool{}
+		env.evalBody(ao, ao.Decl.Body.List, outs, 0)
+		switch {
+		case panics || outs["panic"]:
+			missing = append(missing, name+" (reaches the panic)")
+		case len(assigns) != 1:
+			missing = append(missing, fmt.Sprintf("%s (assigns %d slots)", name, len(assigns)))
+		default:
+			for other, sl := range slotOf {
+				if sl == assigns[0] {
+					missing = append(missing, name+" (shares the slot "+sl+" with "+other+")")
+				}
+			}
+			slotOf[name] = assigns[0]
 		}
 	}
-	sort.Strings(missing)
 	if len(produced) >= 5 && len(missing) == 0 {
-		r.Ok("C17-METHOD-EXHAUSTIVE", "assignOperation", fmt.Sprintf("cases for all %d methods NewHTTPMethod can return", len(produced)), c.pos(ao.Decl.Pos()))
+		r.Ok("C17-METHOD-EXHAUSTIVE", "assignOperation", fmt.Sprintf("for each of the %d methods NewHTTPMethod can return, the abstract run assigns one slot of its own and does not reach the panic", len(produced)), c.pos(ao.Decl.Pos()))
 	} else {
-		r.Bad("C17-METHOD-EXHAUSTIVE", "assignOperation", fmt.Sprintf("no case for %v: such an interaction ends in the 'Unsupported method' panic (an error at best), never in paths[path][method]", missing), c.pos(ao.Decl.Pos()))
+		r.Bad("C17-METHOD-EXHAUSTIVE", "assignOperation", fmt.Sprintf("not handled: %v: such an interaction ends in the 'Unsupported method' panic (an error at best) or in another method's slot, never in paths[path][method]", missing), c.pos(ao.Decl.Pos()))
 	}
 }
 
